@@ -317,7 +317,7 @@ def build_harness(crate="seqdrv", exe=None, release=True):
         return os.path.join(tgt, "release" if release else "debug", exe or crate), ""
 
 
-def run_lines(exe, lines, timeout=1200, shards=8, env=None, per_shard=50):
+def run_lines(exe, lines, timeout=1200, shards=8, env=None, per_shard=50, mem_gb=None):
     """feed case lines to a line driver, sharded over processes; returns list of output lines"""
     if not lines:
         return []
@@ -325,11 +325,14 @@ def run_lines(exe, lines, timeout=1200, shards=8, env=None, per_shard=50):
     chunks = [lines[i::n] for i in range(n)]
     procs = []
     def limit():
-        # a defective implementation must not take the machine down (e.g. a huge allocation):
-        # cap each driver's address space; an aborted driver shows up as DRIVER-DIED lines
+        # engines whose inputs can provoke huge allocations in a defective implementation (pattern
+        # padding widths) cap the driver's address space; an aborted driver shows up as DRIVER-DIED.
+        # Not applied by default: runtimes with many threads reserve a lot of virtual memory.
+        if not mem_gb:
+            return
         import resource
         try:
-            resource.setrlimit(resource.RLIMIT_AS, (8 << 30, 8 << 30))
+            resource.setrlimit(resource.RLIMIT_AS, (mem_gb << 30, mem_gb << 30))
         except Exception:
             pass
 
